@@ -42,8 +42,17 @@ fn position_to_index(source: &[char], position: Position) -> usize {
         .take(position.line as usize + 1)
         .collect();
 
-    let line_end_idx = newline_indices.pop().unwrap_or(source.len());
-    let line_start_idx = newline_indices.pop().unwrap_or(0);
+    let found_lines = newline_indices.len();
+
+    let mut line_end_idx = newline_indices.pop().unwrap_or(source.len());
+    let mut line_start_idx = newline_indices.pop().unwrap_or(0);
+
+    // The position is on the last line and that line has content, i.e. the source does not end
+    // with a newline: the last index we found is where that line starts, not where it ends.
+    if found_lines == position.line as usize && found_lines > 0 && line_end_idx < source.len() {
+        line_start_idx = line_end_idx;
+        line_end_idx = source.len();
+    }
 
     let mut traversed_cols = 0;
 
